@@ -118,6 +118,24 @@ class WeightModel:
                     Wg = subst_params(W, args)
                     r = self.avail_ok(g, a, Wg, depth + 1)
                     if r is None:
+                        # path-sensitive view of the same argument (a value routed through a local enum / helper)
+                        from sym import ipaths
+                        status = {n for n, h in self.F.fns.items() if h.rec.get("ret", "").endswith("CommandStatus")}
+                        vals = []
+                        for p in ipaths(self.F, g, stop=lambda n: n in self.inc_defs or n in self.qnames or n in status, depth=2):
+                            for e in p.events:
+                                if e.fn is g and e.bb == bb and len(e.args) >= m[1]:
+                                    vals.append((e.args[m[1] - 1], subst_params(W, list(e.args))))
+                        r = []
+                        for av, wv in vals:
+                            rr = self.avail_ok(g, av, wv, depth + 1)
+                            if rr is None:
+                                r = None
+                                break
+                            r += rr
+                        if not vals:
+                            r = None
+                    if r is None:
                         return None
                     calls += r
                 continue
@@ -159,18 +177,44 @@ class WeightModel:
 
     _admit_cache = {}
 
+    def keep_in_expansion(self, name):
+        """vocabulary of the weight rules: never spliced away when a function is expanded"""
+        return name in self.qnames or name in {s["fn"].name for s in self.sites} or name in {s["fn"].name for s in self.helper_sites}
+
+    def expanded(self, fn):
+        import inline
+        if not hasattr(self, "_keep"):
+            self._keep = self.keep_in_expansion
+        return inline.expand(self.F, fn, self._keep)
+
     def admits(self, H, WH):
         """H returns Accepted only on paths that end under a space atom for WH, and H never increases the total"""
         key = (id(self.F), H.name, repr(strip_site(WH)))
         if key in self._admit_cache:
             return self._admit_cache[key]
         self._admit_cache[key] = False
+        H = self.expanded(H)        # a step of H extracted into a private helper (`evict`, `status_when_exhausted`) is H's own
         ok = H.name not in self.inc_defs
         atoms = self.atom_edges(H, WH) if ok else []
         n_acc = 0
+        # locals whose value reaches the return slot through plain moves (a spliced helper returns through a temporary)
+        flows = {0}
+        grew = True
+        while grew:
+            grew = False
+            for b in H.live_blocks():
+                for s in H.blocks[b]["stmts"]:
+                    if s["k"] == "assign" and s["place"]["l"] in flows and not s["place"]["p"] and s["rv"]["k"] == "use" \
+                            and s["rv"]["op"].get("k") in ("copy", "move") and not s["rv"]["op"]["place"]["p"]:
+                        src = s["rv"]["op"]["place"]["l"]
+                        if src not in flows:
+                            flows.add(src)
+                            grew = True
         for b in sorted(H.live_blocks()):
             for i, s in enumerate(H.blocks[b]["stmts"]):
-                if s["k"] == "assign" and s["place"]["l"] == 0 and not s["place"]["p"]:
+                if s["k"] == "assign" and s["place"]["l"] in flows and not s["place"]["p"]:
+                    if s["rv"]["k"] == "use" and s["rv"]["op"].get("k") in ("copy", "move") and not s["rv"]["op"]["place"]["p"] and s["rv"]["op"]["place"]["l"] in flows:
+                        continue        # a plain move between two return carriers
                     e = H.origin_rvalue(s["rv"])
                     if e[0] == "agg" and e[2] == "Accepted":
                         n_acc += 1
